@@ -60,12 +60,24 @@ def gen_history(rng, kind, length, bad_rate=0.0):
     universe = rng.sample(range(1, 50), u)
     live = []
     atts = set()
+    gone = []
     toks = []
     queries = KINDS[kind]
     for _ in range(length):
         r = rng.random()
         if bad_rate and rng.random() < bad_rate:
-            k = rng.choice(["dupA", "dup+", "R?", "-?", "+?"])
+            k = rng.choice(["dupA", "dup+", "R?", "-?", "+?", "-gone", "-gone"])
+            if k == "-gone" and gone:
+                # an attack that vanished when one of its endpoints was removed (the endpoint possibly re-added since,
+                # or re-added right now): removing it is invalid
+                a, b = rng.choice(gone)
+                for x in (a, b):
+                    if x not in live and rng.random() < 0.5:
+                        live.append(x)
+                        toks.append("A%d" % x)
+                if (a, b) not in atts:
+                    toks.append("-%d>%d" % (a, b))
+                    continue
             if k == "dupA" and live:
                 toks.append("A%d" % rng.choice(live))
                 continue
@@ -96,8 +108,16 @@ def gen_history(rng, kind, length, bad_rate=0.0):
         if r < 0.30 and len(live) > 1:
             l = rng.choice(live)
             live.remove(l)
+            gone = ([(a, b) for (a, b) in sorted(atts) if a == l or b == l] + gone)[:6]
             atts = set((a, b) for (a, b) in atts if a != l and b != l)
             toks.append("R%d" % l)
+            if bad_rate and gone and rng.random() < 0.25:
+                # right away, before any query: the removal of an attack that has just vanished with its endpoint
+                a, b = gone[0]
+                if rng.random() < 0.5:
+                    live.append(l)
+                    toks.append("A%d" % l)
+                toks.append("-%d>%d" % (a, b))
             continue
         if r < 0.60 and live:
             a, b = rng.choice(live), rng.choice(live)
